@@ -29,6 +29,8 @@
 (*                      with RawFd(1) for stderr ("2>&1") the program loses its stdout      *)
 (*   "PreExecLastWins"  every pre-exec closure runs and only the LAST result counts (a blind *)
 (*                      mutant): an earlier failure is lost (Ok) or the wrong errno reported *)
+(*   "ChildAllocatesOnFailure" the child builds its failure report with an allocating call  *)
+(*                      (a blind mutant): not async-signal-safe between fork and exec       *)
 (* Dev = {} is the code as it stands after the `fix:` commits (see notes/C13.md).           *)
 EXTENDS SpawnAbs, TLC
 
@@ -67,9 +69,10 @@ VARIABLES cfg, fault,                      \* chosen in Init, never changed
           ci, cerr, perr, pres,            \* child step index, child/parent error in flight, parent result
           wi, cache,                       \* the caller's wait calls on the Child: index into cfg.wseq, Process.status
           round,                           \* 1, or 2 = the same Command value is spawned a second time
+          calloc,                          \* the forked child has entered the allocator before exec / exit
           returns, child, execd, image, reaped, cstatus, waits   \* the observation
 vars_all == <<cfg, fault, pc, bi, argv, envmode, vars, envp, theirs, pin, pipe, cnt, fired, hist, F,
-              im, ci, cerr, perr, pres, wi, cache, round, returns, child, execd, image, reaped, cstatus, waits>>
+              im, ci, cerr, perr, pres, wi, cache, round, calloc, returns, child, execd, image, reaped, cstatus, waits>>
 
 Obs == [returns |-> returns, failed |-> F, child |-> child, execd |-> execd, image |-> image,
         reaped |-> reaped, cstatus |-> cstatus, waits |-> waits]
@@ -137,6 +140,7 @@ Init ==
     /\ wi = 1
     /\ cache = NoStatus
     /\ round = 1
+    /\ calloc = FALSE
     /\ returns = << >>
     /\ child = "none"
     /\ execd = FALSE
@@ -158,7 +162,7 @@ Did(p, s, e) ==
     /\ F' = IF e # 0 THEN F \cup {[proc |-> p, step |-> s, errno |-> IF e > 0 THEN e ELSE 0]} ELSE F
 NoCall == UNCHANGED <<cnt, fired, hist, F>>
 
-cfgv   == <<cfg, fault, wi, cache, round>>     \* never changed except by the caller's wait calls / Respawn
+cfgv   == <<cfg, fault, wi, cache, round, calloc>>     \* never changed except by the caller's wait calls / Respawn
 buildv == <<bi, argv, envmode, vars, envp>>
 obsv   == <<returns, child, execd, image, reaped, cstatus, waits>>
 Goto(p, l) == pc' = [pc EXCEPT ![p] = l]
@@ -373,7 +377,7 @@ DriverOp ==
             /\ Report("none", 0)
             /\ UNCHANGED <<cache, reaped>>
     /\ wi' = wi + 1
-    /\ UNCHANGED <<pin, cfg, fault, round, pc, buildv, theirs, pipe, im, ci, cerr, perr, pres, returns, child, execd, image, cstatus>>
+    /\ UNCHANGED <<pin, cfg, fault, round, calloc, pc, buildv, theirs, pipe, im, ci, cerr, perr, pres, returns, child, execd, image, cstatus>>
 
 \* the caller is done with the Child (dropping it closes the pipes it still owns)
 DriverDone ==
@@ -515,7 +519,10 @@ WriteErrno ==
     /\ Did("C", "write", 0)
     /\ pipe' = [pipe EXCEPT !.data = <<cerr, "NOEX">>]
     /\ Goto("C", "c_exit")
-    /\ UNCHANGED <<pin, cfgv, buildv, theirs, im, ci, cerr, perr, pres, obsv>>
+    \* as coded the 8 bytes are put together in an array on the stack; the deviation builds them with an
+    \* allocating `concat`
+    /\ calloc' = (calloc \/ "ChildAllocatesOnFailure" \in Dev)
+    /\ UNCHANGED <<pin, cfg, fault, wi, cache, round, buildv, theirs, im, ci, cerr, perr, pres, obsv>>
 
 Exit1 ==
     /\ pc.C = "c_exit"
@@ -560,7 +567,7 @@ Respawn ==
     /\ pc' = [P |-> "sio", C |-> "none"]
     /\ bi' = 1
     /\ FreshSpawn
-    /\ UNCHANGED <<cfg, fault, fired, envmode, vars, envp>>
+    /\ UNCHANGED <<cfg, fault, fired, envmode, vars, envp, calloc>>
 
 Next == \/ BuildArg \/ BuildEnv \/ SetupIo \/ SyncPipe \/ Fork \/ ParentCloseWrite \/ ReadPipe
         \/ ParentWait \/ Return \/ DriverDropStdin \/ DriverOp \/ DriverDone
@@ -585,7 +592,11 @@ AbsViolated == Violated(AbsCfgNow, Obs, Terminal)
 \* (stdin(RawFd(1)) + stdout(RawFd(0)) gives the program the caller's fd 1 on both).
 SourceOverwritten(c) == \E s \in 2..3, j \in 1..2 : j < s /\ c.io[s] = FdNames[j] /\ c.io[j] \notin {"inherit", FdNames[j]}
 KnownInModel == IF SourceOverwritten(cfg) THEN {"OkMeansConfigured"} ELSE {}
-AbsHolds == AbsViolated \ KnownInModel = {}
+\* between fork and exec / _exit the child takes async-signal-safe steps only: it never enters the
+\* allocator (another thread of the caller may hold the allocator's lock at the moment of the fork; the
+\* child would block on it for ever, the parent on the sync pipe: spawn would return in no process)
+ChildIsAsyncSignalSafe == ~calloc
+AbsHolds == AbsViolated \ KnownInModel = {} /\ ChildIsAsyncSignalSafe
 
 \* "the parent never blocks forever on the sync pipe" = absence of deadlock (CHECK_DEADLOCK
 \* TRUE; Terminal states stutter)
